@@ -12,6 +12,7 @@ func init() {
 			Harness{Fn: "ZZC01Pairs", Expect: []string{"pair", "expr-ok", "witness:end"}},
 			Harness{Fn: "ZZC01Args", Expect: []string{"args-ok", "witness:end"}},
 			Harness{Fn: "ZZC01Print", Quick: p("PD", 1), Thorough: p("PD", 2), ThoroughBudget: 20 * time.Minute, Expect: []string{"print-ok", "witness:end"}},
+			Harness{Fn: "ZZC01Equal", Quick: p("ED", 1), Thorough: p("ED", 2), ThoroughBudget: 20 * time.Minute, Expect: []string{"equal-ok", "witness:end"}},
 			Harness{Fn: "ZZC01Effects", Quick: p("NE", 3), Thorough: p("NE", 4), Expect: []string{"effects-ok", "witness:end"}},
 			Harness{Fn: "ZZC01Lists", Quick: p("N", 3), Thorough: p("N", 4), Expect: []string{"lists-ok", "witness:end"}},
 		)},
